@@ -183,7 +183,7 @@ package reservation
 // the reservation's AssignedPods, AddAssignedPod of a recorded pod replaces its entry) is verified under C05 above.
 
 // deletePod: a pod whose persisted assignment names a reservation UID is removed from exactly that reservation, once.
-//@ func (*podEventHandler).deletePod [C19]
+//@ func (*podEventHandler).deletePod [C19,C05]
 //@   requires h != nil && h.cache != nil && h.nominator != nil && pod != nil
 //@   requires cacheInv(h.cache) && (forall u types.UID :: {has(h.cache.reservationInfos, u)} entryOK(h.cache, u))
 //@   assert before call deletePod: #own: $recv == h.cache && $arg1 == pod && lastresult("GetReservationAllocated", 1) == nil && lastresult("GetReservationAllocated", 0) != nil && $arg0 == lastresult("GetReservationAllocated", 0).UID && $arg0 != ""
@@ -204,7 +204,7 @@ package reservation
 //   #when       only for an assigned, non-terminated new object, never after a deletePod;
 //   #complete   and always when the new object carries an assignment (stated at the first call after the decision);
 //   #whom       a terminated pod is deleted itself, an un-assigned one deletes the old object (if that had a node).
-//@ func (*podEventHandler).updatePod [C19]
+//@ func (*podEventHandler).updatePod [C19,C05]
 //@   requires h != nil && h.cache != nil && h.nominator != nil && newPod != nil
 //@   requires cacheInv(h.cache) && (forall u types.UID :: {has(h.cache.reservationInfos, u)} entryOK(h.cache, u))
 //@   requires forall u types.UID, v types.UID :: {h.cache.reservationInfos[u], h.cache.reservationInfos[v]} has(h.cache.reservationInfos, u) && has(h.cache.reservationInfos, v) && u != v ==> h.cache.reservationInfos[u].AssignedPods != h.cache.reservationInfos[v].AssignedPods
@@ -219,12 +219,12 @@ package reservation
 // Informer wrappers: every pod event is forwarded unchanged; anything that carries no pod is dropped.
 //@ spec func hOK(h *podEventHandler) bool = h != nil && h.cache != nil && h.nominator != nil && cacheInv(h.cache) && (forall u types.UID :: {has(h.cache.reservationInfos, u)} entryOK(h.cache, u)) && (forall u types.UID, v types.UID :: {h.cache.reservationInfos[u], h.cache.reservationInfos[v]} has(h.cache.reservationInfos, u) && has(h.cache.reservationInfos, v) && u != v ==> h.cache.reservationInfos[u].AssignedPods != h.cache.reservationInfos[v].AssignedPods)
 //@ spec func evPod(obj any) *corev1.Pod = typeis(obj, *corev1.Pod) ? payload(obj, *corev1.Pod) : nil
-//@ func (*podEventHandler).OnAdd [C19]
+//@ func (*podEventHandler).OnAdd [C19,C05]
 //@   requires hOK(h)
 //@   assert before call updatePod: #fwd: $arg0 == nil && $arg1 == evPod(obj) && $arg1 != nil
 //@   ensures #iff: calls("updatePod") == (evPod(obj) != nil ? 1 : 0)
 
-//@ func (*podEventHandler).OnUpdate [C19]
+//@ func (*podEventHandler).OnUpdate [C19,C05]
 //@   requires hOK(h)
 //@   requires typeis(newObj, *corev1.Pod) ==> payload(newObj, *corev1.Pod) != nil
 //@   assert before call updatePod: #fwd: typeis(oldObj, *corev1.Pod) && typeis(newObj, *corev1.Pod) && $arg0 == payload(oldObj, *corev1.Pod) && $arg1 == payload(newObj, *corev1.Pod)
@@ -232,7 +232,7 @@ package reservation
 
 //@ spec func tombPod(obj any) *corev1.Pod = typeis(obj, cache.DeletedFinalStateUnknown) ? evPod(payload(obj, cache.DeletedFinalStateUnknown).Obj) : nil
 //@ spec func deletedPod(obj any) *corev1.Pod = typeis(obj, *corev1.Pod) ? payload(obj, *corev1.Pod) : tombPod(obj)
-//@ func (*podEventHandler).OnDelete [C19]
+//@ func (*podEventHandler).OnDelete [C19,C05]
 //@   requires hOK(h)
 //@   assert before call deletePod: #fwd: $arg0 == deletedPod(obj) && $arg0 != nil
 //@   ensures #iff: calls("deletePod") == (deletedPod(obj) != nil ? 1 : 0)
